@@ -8,15 +8,15 @@ import vlib, gl, session
 AXES = [("ne", True), ("en", False), ("sw", True), ("es", True), ("nw", False)]
 
 
-def generate(ctx, name, consts, timeout=1500):
+def generate(ctx, name, consts, timeout=1500, module="AcordModel"):
     cfg = os.path.join(vlib.SPEC, "_%s.cfg" % name)
     with open(cfg, "w") as f:
         f.write("SPECIFICATION Spec\nCONSTANTS\n" + "".join("  %s = %s\n" % kv for kv in consts.items())
                 + "INVARIANTS Determined Emit\nPROPERTY Monotone\nCHECK_DEADLOCK FALSE\n")
-    r = vlib.tlc("AcordModel", "_%s.cfg" % name, timeout=timeout)
+    r = vlib.tlc(module, "_%s.cfg" % name, timeout=timeout)
     os.remove(cfg)
     if r.outcome != "ok":
-        raise vlib.ModelFailure("AcordModel: %s\n%s" % (r.outcome, r.out[-2500:]))
+        raise vlib.ModelFailure("%s: %s\n%s" % (module, r.outcome, r.out[-2500:]))
     return r, sorted(r.cases, key=lambda c: json.dumps(c, sort_keys=True))
 
 
@@ -44,12 +44,49 @@ def survey(case, variant):
     return sv
 
 
-def run(ctx, cases, algs=(None,), variants=(0, 1, 2)):
+def survey_h(case, variant):
+    """AcordHeights.tla: horizontal positions fixed, heights of the constructed points omitted; variant 3 (pure vector networks only):
+    nothing but the fixed point is given"""
+    k = sum(o["from"] * 7 + o["to"] for o in case["obs"]) + len(case["obs"])
+    axes, lh = AXES[(k + variant) % len(AXES)]
+    known = case["fixed"] + case["built"]
+    free = variant == 3
+    pts = [{"id": "P%d" % i, "e": 1000 + 100 * case["pts"][i - 1]["e"], "n": 2000 + 100 * case["pts"][i - 1]["n"], "u": case["pts"][i - 1]["u"],
+            "role": "fix" if i in case["fixed"] else ("unk" if free else "unkz")} for i in sorted(known)]
+    obs = []
+    for o in case["obs"]:
+        f, t = "P%d" % o["from"], "P%d" % o["to"]
+        if o["t"] == "dh":
+            obs.append({"t": "dh", "from": f, "to": t, "to2": ""})
+        elif o["t"] == "zs":
+            obs.append({"t": "s-distance", "from": f, "to": t, "to2": ""})
+            obs.append({"t": "z-angle", "from": f, "to": t, "to2": ""})
+        else:
+            obs.append({"t": "vector", "from": f, "to": t, "to2": ""})
+    net = {"t": "acordh", "dim": 3, "pts": pts, "obs": obs, "axes": axes, "lefthanded": lh, "noise": 0, "orient": 137531}
+    sv = session.Survey(net)
+    for p in sv.pts:
+        if p["role"] != "fix":
+            p["approx"] = "omit"
+    n = len(case["pts"])
+    if variant == 1:
+        sv.names = {"P%d" % i: "Q%d" % (n + 1 - i) for i in sorted(known)}
+        sv.order_seed = 1000 + k
+    elif variant == 2:
+        sv.names = {"P%d" % i: ("Z%d" % i if i in case["fixed"] else "A%d" % (n + 1 - i)) for i in sorted(known)}
+        sv.order_seed = 2000 + k
+    return sv
+
+
+def run(ctx, cases, algs=(None,), variants=(0, 1, 2), heights=False):
     vlib.build("plain", ["gama-local"])
     jobs, meta = [], []
     for ci, c in enumerate(cases):
-        for v in variants:
-            sv = survey(c, v)
+        vs = variants
+        if heights and all(o["t"] == "vec" for o in c["obs"]):
+            vs = tuple(variants) + (3,)
+        for v in vs:
+            sv = survey_h(c, v) if heights else survey(c, v)
             for alg in algs:
                 args = sv.cli() + (["--algorithm", alg] if alg else [])
                 jobs.append({"gkf": sv.gkf(), "args": args, "want": ["xml"]})
@@ -59,7 +96,7 @@ def run(ctx, cases, algs=(None,), variants=(0, 1, 2)):
     for (ci, v, alg, sv), run, job in zip(meta, runs, jobs):
         c = cases[ci]
         kinds = "+".join(c["hist"][:len(c["hist"]) - c["extra"]])
-        tag = "acord|%s%s" % (kinds, "|extra" if c["extra"] else "")
+        tag = "%s|%s%s" % ("acordh" if heights else "acord", kinds, "|extra" if c["extra"] else "")
         st["by_construction"][kinds] = st["by_construction"].get(kinds, 0) + 1
 
         def report(chk, msg, job=job, tag=tag, c=c, v=v):
